@@ -1048,6 +1048,20 @@ func F§() bool {
 	_ = (a) == (a) || (a+b)*2 == (a+b)*2
 	return !(!(a == b))
 }
+### boolnested | exprs
+func F§() bool {
+	a, b := «i», «i»
+	f := «f»
+	_ = gb && fba(!!gb)
+	_ = !fba(!(a == b))
+	_ = gb || func() bool { return !(a != b) }()
+	_ = gb && []bool{!(a < b)}[0]
+	_ = fba(!(a >= b)) == fba(!(f < 1))
+	_ = gb && fba(a+1 > b) || fba(a >= 1 && a < 2)
+	_ = map[bool]int{!(a == b): 1}[gb] > 0 && gb
+	_ = gb && struct{ x bool }{!(a <= b)}.x
+	return gb && fba(fba(!!fb()))
+}
 ### assignop | exprs
 func F§() {
 	x, y := «i», «i»
@@ -1465,6 +1479,62 @@ func J§(
 	//«c»
 	a int, //«c»
 ) {
+}
+### selfembed | generics
+type Rows struct{}
+type SE§ struct{ *SE§ }
+func (t *SE§) Query(q string) (*Rows, error) { return nil, nil }
+type SE2§ struct{ *SE3§ }
+type SE3§ struct {
+	*SE2§
+	n int
+}
+func (t *SE2§) Query(q string) (*Rows, error)        { return nil, nil }
+func (t *SE3§) QueryContext(c any, q string) (*Rows, error) { return nil, nil }
+type SI§ interface {
+	SI§b
+	Query(q string) (*Rows, error)
+}
+type SI§b interface{ Exec(q string) (int, error) }
+func F§(t *SE§, u *SE2§, v SE3§, w SI§) error {
+	_, err := t.Query("x")
+	_, _ = u.Query("y")
+	_, _ = v.QueryContext(nil, "z")
+	_, _ = w.Query("w")
+	return err
+}
+type Loop§ struct {
+	next *Loop§
+	self []Loop§
+	m    map[string]*Loop§
+	f    func(Loop§) Loop§
+}
+func (l Loop§) Big(o Loop§) Loop§ {
+	for _, x := range l.self {
+		_ = x
+	}
+	return o
+}
+### variadic_forward | multivalue
+type Opt§ func(*int)
+func optf§(a, b int, opts ...Opt§) {}
+func optg§() (int, int, Opt§)    { return 0, 0, nil }
+func opth§() (int, int)          { return 0, 0 }
+func opts§() []Opt§              { return nil }
+func with§(int) Opt§             { return nil }
+func F§() {
+	optf§(optg§())
+	optf§(opth§())
+	optf§(1, 2)
+	optf§(1, 2, nil, nil)
+	optf§(1, 2, opts§()...)
+	optf§(1, 2, with§(1), with§(1))
+	println(f2())
+	_ = max(1, 2)
+	func(a ...int) {}()
+	func(a ...int) {}(f2())
+	func(a int, b ...int) {}(f2())
+	func(a, b int, c ...func()) {}(f2())
 }
 ### shadowing | namesake | free
 type string§ = string
